@@ -14,49 +14,49 @@ theorem chainT_var {e e' : Expr} (h : Chain VkT e e') : ∀ a, e = .var a → e'
 
 /-! ### link-level congruences -/
 
-theorem vk_paren {x x'} (h : VkE x x') : VkE (.paren x) (.paren x') := fun D hn =>
-  ⟨.paren (h D (NoRefE.paren.mp hn)).1, NoRefE.paren.mpr (h D (NoRefE.paren.mp hn)).2⟩
-theorem vk_un {op x x'} (h : VkE x x') : VkE (.un op x) (.un op x') := fun D hn =>
-  ⟨.un (h D (NoRefE.un.mp hn)).1, NoRefE.un.mpr (h D (NoRefE.un.mp hn)).2⟩
-theorem vk_bin {op l l' r r'} (h1 : VkE l l') (h2 : VkE r r') : VkE (.bin op l r) (.bin op l' r') := fun D hn =>
+theorem vk_paren {x x'} (h : VkE x x') : VkE (.paren x) (.paren x') := fun D hd hn =>
+  ⟨.paren (h D hd (NoRefE.paren.mp hn)).1, NoRefE.paren.mpr (h D hd (NoRefE.paren.mp hn)).2⟩
+theorem vk_un {op x x'} (h : VkE x x') : VkE (.un op x) (.un op x') := fun D hd hn =>
+  ⟨.un (h D hd (NoRefE.un.mp hn)).1, NoRefE.un.mpr (h D hd (NoRefE.un.mp hn)).2⟩
+theorem vk_bin {op l l' r r'} (h1 : VkE l l') (h2 : VkE r r') : VkE (.bin op l r) (.bin op l' r') := fun D hd hn =>
   have hh := NoRefE.bin.mp hn
-  ⟨.bin (h1 D hh.1).1 (h2 D hh.2).1, NoRefE.bin.mpr ⟨(h1 D hh.1).2, (h2 D hh.2).2⟩⟩
+  ⟨.bin (h1 D hd hh.1).1 (h2 D hd hh.2).1, NoRefE.bin.mpr ⟨(h1 D hd hh.1).2, (h2 D hd hh.2).2⟩⟩
 theorem vk_call {f f' m k args args'} (h1 : VkE f f') (h2 : Forall2 VkE args args') :
-    VkE (.call f m k args) (.call f' m k args') := fun D hn =>
+    VkE (.call f m k args) (.call f' m k args') := fun D hd hn =>
   have hh := NoRefE.call.mp hn
-  ⟨.call (h1 D hh.1).1 (vkEs h2 D hh.2).1, NoRefE.call.mpr ⟨(h1 D hh.1).2, (vkEs h2 D hh.2).2⟩⟩
-theorem vk_field {x x' n} (h : VkE x x') : VkE (.field x n) (.field x' n) := fun D hn =>
-  ⟨.field (h D (NoRefE.field.mp hn)).1, NoRefE.field.mpr (h D (NoRefE.field.mp hn)).2⟩
-theorem vk_index {x x' k k'} (h1 : VkE x x') (h2 : VkE k k') : VkE (.index x k) (.index x' k') := fun D hn =>
+  ⟨.call (h1 D hd hh.1).1 (vkEs h2 D hd hh.2).1, NoRefE.call.mpr ⟨(h1 D hd hh.1).2, (vkEs h2 D hd hh.2).2⟩⟩
+theorem vk_field {x x' n} (h : VkE x x') : VkE (.field x n) (.field x' n) := fun D hd hn =>
+  ⟨.field (h D hd (NoRefE.field.mp hn)).1, NoRefE.field.mpr (h D hd (NoRefE.field.mp hn)).2⟩
+theorem vk_index {x x' k k'} (h1 : VkE x x') (h2 : VkE k k') : VkE (.index x k) (.index x' k') := fun D hd hn =>
   have hh := NoRefE.index.mp hn
-  ⟨.index (h1 D hh.1).1 (h2 D hh.2).1, NoRefE.index.mpr ⟨(h1 D hh.1).2, (h2 D hh.2).2⟩⟩
-theorem vk_fn {f f'} (h : VkF f f') : VkE (.fn f) (.fn f') := fun D hn => by
-  have hh := h D none (NoRefE.fn.mp hn) (fun h => by simp at h)
+  ⟨.index (h1 D hd hh.1).1 (h2 D hd hh.2).1, NoRefE.index.mpr ⟨(h1 D hd hh.1).2, (h2 D hd hh.2).2⟩⟩
+theorem vk_fn {f f'} (h : VkF f f') : VkE (.fn f) (.fn f') := fun D hd hn => by
+  have hh := h D hd none (NoRefE.fn.mp hn) (fun h => by simp at h)
   rw [addSelf_none, addSelf_none] at hh
   exact ⟨.fn hh.1, NoRefE.fn.mpr hh.2⟩
-theorem vk_table {es es'} (h : Forall2 (EntryRel VkE) es es') : VkE (.table es) (.table es') := fun D hn =>
-  ⟨.table (vkEntries h D (NoRefE.table.mp hn)).1, NoRefE.table.mpr (vkEntries h D (NoRefE.table.mp hn)).2⟩
+theorem vk_table {es es'} (h : Forall2 (EntryRel VkE) es es') : VkE (.table es) (.table es') := fun D hd hn =>
+  ⟨.table (vkEntries h D hd (NoRefE.table.mp hn)).1, NoRefE.table.mpr (vkEntries h D hd (NoRefE.table.mp hn)).2⟩
 theorem vk_ifx {c c' t t' el el' e e'} (h1 : VkE c c') (h2 : VkE t t') (h3 : Forall2 (PairRel VkE VkE) el el')
-    (h4 : VkE e e') : VkE (.ifx c t el e) (.ifx c' t' el' e') := fun D hn =>
+    (h4 : VkE e e') : VkE (.ifx c t el e) (.ifx c' t' el' e') := fun D hd hn =>
   have hh := NoRefE.ifx.mp hn
-  ⟨.ifx (h1 D hh.1).1 (h2 D hh.2.1).1 (vkElifs h3 D hh.2.2.1).1 (h4 D hh.2.2.2).1,
-    NoRefE.ifx.mpr ⟨(h1 D hh.1).2, (h2 D hh.2.1).2, (vkElifs h3 D hh.2.2.1).2, (h4 D hh.2.2.2).2⟩⟩
-theorem vk_interp {s s'} (h : Forall2 (SegRel VkE) s s') : VkE (.interp s) (.interp s') := fun D hn =>
-  ⟨.interp (vkSegs h D (NoRefE.interp.mp hn)).1, NoRefE.interp.mpr (vkSegs h D (NoRefE.interp.mp hn)).2⟩
-theorem vk_cast {x x' ty ty'} (h : VkE x x') : VkE (.cast x ty) (.cast x' ty') := fun D hn =>
-  ⟨.cast (h D (NoRefE.cast.mp hn)).1, NoRefE.cast.mpr (h D (NoRefE.cast.mp hn)).2⟩
-theorem vk_inst {x x' ty ty'} (h : VkE x x') : VkE (.inst x ty) (.inst x' ty') := fun D hn =>
-  ⟨.inst (h D (NoRefE.inst.mp hn)).1, NoRefE.inst.mpr (h D (NoRefE.inst.mp hn)).2⟩
+  ⟨.ifx (h1 D hd hh.1).1 (h2 D hd hh.2.1).1 (vkElifs h3 D hd hh.2.2.1).1 (h4 D hd hh.2.2.2).1,
+    NoRefE.ifx.mpr ⟨(h1 D hd hh.1).2, (h2 D hd hh.2.1).2, (vkElifs h3 D hd hh.2.2.1).2, (h4 D hd hh.2.2.2).2⟩⟩
+theorem vk_interp {s s'} (h : Forall2 (SegRel VkE) s s') : VkE (.interp s) (.interp s') := fun D hd hn =>
+  ⟨.interp (vkSegs h D hd (NoRefE.interp.mp hn)).1, NoRefE.interp.mpr (vkSegs h D hd (NoRefE.interp.mp hn)).2⟩
+theorem vk_cast {x x' ty ty'} (h : VkE x x') : VkE (.cast x ty) (.cast x' ty') := fun D hd hn =>
+  ⟨.cast (h D hd (NoRefE.cast.mp hn)).1, NoRefE.cast.mpr (h D hd (NoRefE.cast.mp hn)).2⟩
+theorem vk_inst {x x' ty ty'} (h : VkE x x') : VkE (.inst x ty) (.inst x' ty') := fun D hd hn =>
+  ⟨.inst (h D hd (NoRefE.inst.mp hn)).1, NoRefE.inst.mpr (h D hd (NoRefE.inst.mp hn)).2⟩
 theorem vk_tField {x x' n} (h : VkE x x') : VkT (.field x n) (.field x' n) :=
-  ⟨fun D hn => ⟨.tField (h D (NoRefT.field.mp hn)).1, NoRefT.field.mpr (h D (NoRefT.field.mp hn)).2⟩,
+  ⟨fun D hd hn => ⟨.tField (h D hd (NoRefT.field.mp hn)).1, NoRefT.field.mpr (h D hd (NoRefT.field.mp hn)).2⟩,
     fun _ h => by cases h⟩
 theorem vk_tIndex {x x' k k'} (h1 : VkE x x') (h2 : VkE k k') : VkT (.index x k) (.index x' k') :=
-  ⟨fun D hn =>
+  ⟨fun D hd hn =>
     have hh := NoRefT.index.mp hn
-    ⟨.tIndex (h1 D hh.1).1 (h2 D hh.2).1, NoRefT.index.mpr ⟨(h1 D hh.1).2, (h2 D hh.2).2⟩⟩,
+    ⟨.tIndex (h1 D hd hh.1).1 (h2 D hd hh.2).1, NoRefT.index.mpr ⟨(h1 D hd hh.1).2, (h2 D hd hh.2).2⟩⟩,
     fun _ h => by cases h⟩
 theorem vk_tNonLv {e e' : Expr} (h1 : e.isLv = false) (h2 : e'.isLv = false) : VkT e e' :=
-  ⟨fun _ _ => ⟨.tNonLv h1 h2, Heap.NoRefT.nonLv h2⟩, fun a ha => by subst ha; simp [Expr.isLv] at h1⟩
+  ⟨fun _ _ _ => ⟨.tNonLv h1 h2, Heap.NoRefT.nonLv h2⟩, fun a ha => by subst ha; simp [Expr.isLv] at h1⟩
 
 /-! ### chain-level congruences (expressions) -/
 
@@ -77,94 +77,94 @@ theorem ch_segs {es es'} (h : Forall2 (SegRel (Chain VkE)) es es') : Chain (Fora
 /-! ### link-level congruences (statements) -/
 
 theorem vk_assign {ts ts' vs vs'} (h1 : Forall2 VkT ts ts') (h2 : Forall2 VkE vs vs') :
-    VkS (.assign ts vs) (.assign ts' vs') := fun D hn =>
+    VkS (.assign ts vs) (.assign ts' vs') := fun D hd hn =>
   have hh := NoRefS.assign.mp hn
-  ⟨.assign (vkTs h1 D hh.1).1 (vkEs h2 D hh.2).1, NoRefS.assign.mpr ⟨(vkTs h1 D hh.1).2, (vkEs h2 D hh.2).2⟩⟩
+  ⟨.assign (vkTs h1 D hd hh.1).1 (vkEs h2 D hd hh.2).1, NoRefS.assign.mpr ⟨(vkTs h1 D hd hh.1).2, (vkEs h2 D hd hh.2).2⟩⟩
 theorem vk_cassign {op t t' v v'} (h1 : VkT t t') (h2 : VkE v v') :
-    VkS (.cassign op t v) (.cassign op t' v') := fun D hn =>
+    VkS (.cassign op t v) (.cassign op t' v') := fun D hd hn =>
   have hh := NoRefS.cassign.mp hn
-  ⟨.cassign (h1.hr D hh.1).1 (h2 D hh.2).1, NoRefS.cassign.mpr ⟨(h1.hr D hh.1).2, (h2 D hh.2).2⟩⟩
-theorem vk_callStmt {c c'} (h : VkE c c') : VkS (.callStmt c) (.callStmt c') := fun D hn =>
-  ⟨.callStmt (h D (NoRefS.callStmt.mp hn)).1, NoRefS.callStmt.mpr (h D (NoRefS.callStmt.mp hn)).2⟩
-theorem vk_doBlock {b b'} (h : VkB b b') : VkS (.doBlock b) (.doBlock b') := fun D hn =>
-  let ⟨⟨_, hb⟩, hnb⟩ := h D (NoRefS.doBlock.mp hn)
+  ⟨.cassign (h1.hr D hd hh.1).1 (h2 D hd hh.2).1, NoRefS.cassign.mpr ⟨(h1.hr D hd hh.1).2, (h2 D hd hh.2).2⟩⟩
+theorem vk_callStmt {c c'} (h : VkE c c') : VkS (.callStmt c) (.callStmt c') := fun D hd hn =>
+  ⟨.callStmt (h D hd (NoRefS.callStmt.mp hn)).1, NoRefS.callStmt.mpr (h D hd (NoRefS.callStmt.mp hn)).2⟩
+theorem vk_doBlock {b b'} (h : VkB b b') : VkS (.doBlock b) (.doBlock b') := fun D hd hn =>
+  let ⟨⟨_, hb⟩, hnb⟩ := h D hd (NoRefS.doBlock.mp hn)
   ⟨.doBlock hb, NoRefS.doBlock.mpr hnb⟩
 theorem vk_function {name m f f'} (h : VkF f f') : VkS (.function name m f) (.function name m f') :=
-  fun D hn => by
+  fun D hd hn => by
   cases name with
   | nil =>
     have hn' := NoRefS.functionNil.mp hn
-    have hh := h D m hn'.2 hn'.1
+    have hh := h D hd m hn'.2 hn'.1
     exact ⟨.function (fun _ hr => by simp at hr) hh.1, NoRefS.functionNil.mpr ⟨hn'.1, hh.2⟩⟩
   | cons root path =>
     have hn' := NoRefS.functionCons.mp hn
-    have hh := h D m hn'.2.2.2 hn'.2.2.1
+    have hh := h D hd m hn'.2.2.2 hn'.2.2.1
     exact ⟨.function (fun _ hr => by cases hr; exact hn'.1) hh.1,
       NoRefS.functionCons.mpr ⟨hn'.1, hn'.2.1, hn'.2.2.1, hh.2⟩⟩
 theorem vk_gfor {ns ns' vs vs' b b'} (hnm : ns.map TName.name = ns'.map TName.name) (h1 : Forall2 VkE vs vs')
-    (h2 : VkB b b') : VkS (.gfor ns vs b) (.gfor ns' vs' b') := fun D hn =>
+    (h2 : VkB b b') : VkS (.gfor ns vs b) (.gfor ns' vs' b') := fun D hd hn =>
   have hh := NoRefS.gfor.mp hn
-  let ⟨⟨_, hb⟩, hnb⟩ := h2 D hh.2.2
-  ⟨.gfor hnm (vkEs h1 D hh.2.1).1 hb,
-    NoRefS.gfor.mpr ⟨Heap.NoWat.congr hnm hh.1, (vkEs h1 D hh.2.1).2, hnb⟩⟩
+  let ⟨⟨_, hb⟩, hnb⟩ := h2 D hd hh.2.2
+  ⟨.gfor hnm (vkEs h1 D hd hh.2.1).1 hb,
+    NoRefS.gfor.mpr ⟨Heap.NoWat.congr hnm hh.1, (vkEs h1 D hd hh.2.1).2, hnb⟩⟩
 theorem vk_nfor {n n' a a' b b' st st' body body'} (hnm : TName.name n = TName.name n') (h1 : VkE a a') (h2 : VkE b b')
     (h3 : OptRel VkE st st') (h4 : VkB body body') :
-    VkS (.nfor n a b st body) (.nfor n' a' b' st' body') := fun D hn => by
+    VkS (.nfor n a b st body) (.nfor n' a' b' st' body') := fun D hd hn => by
   obtain ⟨nm, ty⟩ := n
   obtain ⟨nm', ty'⟩ := n'
   simp only [TName.name] at hnm
   subst hnm
   cases st <;> cases st' <;> simp only [OptRel] at h3
   · have hh := NoRefS.nforNone.mp hn
-    obtain ⟨⟨_, hb⟩, hnb⟩ := h4 D hh.2.2.2
-    exact ⟨.nforNone rfl (h1 D hh.2.1).1 (h2 D hh.2.2.1).1 hb,
-      NoRefS.nforNone.mpr ⟨hh.1, (h1 D hh.2.1).2, (h2 D hh.2.2.1).2, hnb⟩⟩
+    obtain ⟨⟨_, hb⟩, hnb⟩ := h4 D hd hh.2.2.2
+    exact ⟨.nforNone rfl (h1 D hd hh.2.1).1 (h2 D hd hh.2.2.1).1 hb,
+      NoRefS.nforNone.mpr ⟨hh.1, (h1 D hd hh.2.1).2, (h2 D hd hh.2.2.1).2, hnb⟩⟩
   · have hh := NoRefS.nforSome.mp hn
-    obtain ⟨⟨_, hb⟩, hnb⟩ := h4 D hh.2.2.2.2
-    exact ⟨.nforSome rfl (h1 D hh.2.1).1 (h2 D hh.2.2.1).1 (h3 D hh.2.2.2.1).1 hb,
-      NoRefS.nforSome.mpr ⟨hh.1, (h1 D hh.2.1).2, (h2 D hh.2.2.1).2, (h3 D hh.2.2.2.1).2, hnb⟩⟩
+    obtain ⟨⟨_, hb⟩, hnb⟩ := h4 D hd hh.2.2.2.2
+    exact ⟨.nforSome rfl (h1 D hd hh.2.1).1 (h2 D hd hh.2.2.1).1 (h3 D hd hh.2.2.2.1).1 hb,
+      NoRefS.nforSome.mpr ⟨hh.1, (h1 D hd hh.2.1).2, (h2 D hd hh.2.2.1).2, (h3 D hd hh.2.2.2.1).2, hnb⟩⟩
 theorem vk_ifs {brs brs' els els'} (h1 : Forall2 (PairRel VkE VkB) brs brs') (h2 : OptRel VkB els els') :
-    VkS (.ifs brs els) (.ifs brs' els') := fun D hn => by
+    VkS (.ifs brs els) (.ifs brs' els') := fun D hd hn => by
   cases els <;> cases els' <;> simp only [OptRel] at h2
   · have hh := NoRefS.ifsNone.mp hn
-    exact ⟨.ifsNone (vkBranches h1 D hh).1, NoRefS.ifsNone.mpr (vkBranches h1 D hh).2⟩
+    exact ⟨.ifsNone (vkBranches h1 D hd hh).1, NoRefS.ifsNone.mpr (vkBranches h1 D hd hh).2⟩
   · have hh := NoRefS.ifsSome.mp hn
-    obtain ⟨⟨_, hb⟩, hnb⟩ := h2 D hh.2
-    exact ⟨.ifsSome (vkBranches h1 D hh.1).1 hb, NoRefS.ifsSome.mpr ⟨(vkBranches h1 D hh.1).2, hnb⟩⟩
+    obtain ⟨⟨_, hb⟩, hnb⟩ := h2 D hd hh.2
+    exact ⟨.ifsSome (vkBranches h1 D hd hh.1).1 hb, NoRefS.ifsSome.mpr ⟨(vkBranches h1 D hd hh.1).2, hnb⟩⟩
 theorem vk_localAssign {kind ns ns' vs vs'} (hnm : ns.map TName.name = ns'.map TName.name) (h : Forall2 VkE vs vs') :
-    VkS (.localAssign kind ns vs) (.localAssign kind ns' vs') := fun D hn =>
+    VkS (.localAssign kind ns vs) (.localAssign kind ns' vs') := fun D hd hn =>
   have hh := NoRefS.localAssign.mp hn
-  ⟨.localAssign hnm (vkEs h D hh.2).1,
-    NoRefS.localAssign.mpr ⟨Heap.NoWat.congr hnm hh.1, (vkEs h D hh.2).2⟩⟩
-theorem vk_localFn {kind name f f'} (h : VkF f f') : VkS (.localFn kind name f) (.localFn kind name f') := fun D hn => by
+  ⟨.localAssign hnm (vkEs h D hd hh.2).1,
+    NoRefS.localAssign.mpr ⟨Heap.NoWat.congr hnm hh.1, (vkEs h D hd hh.2).2⟩⟩
+theorem vk_localFn {kind name f f'} (h : VkF f f') : VkS (.localFn kind name f) (.localFn kind name f') := fun D hd hn => by
   have hn' := NoRefS.localFn.mp hn
-  have hh := h D none hn'.2 (fun h => by simp at h)
+  have hh := h D hd none hn'.2 (fun h => by simp at h)
   rw [addSelf_none, addSelf_none] at hh
   exact ⟨.localFn hh.1, NoRefS.localFn.mpr ⟨hn'.1, hh.2⟩⟩
-theorem vk_repeat {b b' c c'} (h : VkRep (b, c) (b', c')) : VkS (.repeat_ b c) (.repeat_ b' c') := fun D hn =>
+theorem vk_repeat {b b' c c'} (h : VkRep (b, c) (b', c')) : VkS (.repeat_ b c) (.repeat_ b' c') := fun D hd hn =>
   have hh := NoRefS.repeat_.mp hn
-  ⟨.repeat_ (h D hh.1 hh.2).1, NoRefS.repeat_.mpr (h D hh.1 hh.2).2⟩
-theorem vk_while {b b' c c'} (h1 : VkE c c') (h2 : VkB b b') : VkS (.while_ c b) (.while_ c' b') := fun D hn =>
+  ⟨.repeat_ (h D hd hh.1 hh.2).1, NoRefS.repeat_.mpr (h D hd hh.1 hh.2).2⟩
+theorem vk_while {b b' c c'} (h1 : VkE c c') (h2 : VkB b b') : VkS (.while_ c b) (.while_ c' b') := fun D hd hn =>
   have hh := NoRefS.while_.mp hn
-  let ⟨⟨_, hb⟩, hnb⟩ := h2 D hh.2
-  ⟨.while_ (h1 D hh.1).1 hb, NoRefS.while_.mpr ⟨(h1 D hh.1).2, hnb⟩⟩
-theorem vk_typeDecl {ex name ty ty'} : VkS (.typeDecl ex name ty) (.typeDecl ex name ty') := fun _ _ =>
+  let ⟨⟨_, hb⟩, hnb⟩ := h2 D hd hh.2
+  ⟨.while_ (h1 D hd hh.1).1 hb, NoRefS.while_.mpr ⟨(h1 D hd hh.1).2, hnb⟩⟩
+theorem vk_typeDecl {ex name ty ty'} : VkS (.typeDecl ex name ty) (.typeDecl ex name ty') := fun _ _ _ =>
   ⟨.typeDecl, fun _ _ => rfl⟩
-theorem vk_typeFn {ex name f f'} : VkS (.typeFn ex name f) (.typeFn ex name f') := fun _ _ =>
+theorem vk_typeFn {ex name f f'} : VkS (.typeFn ex name f) (.typeFn ex name f') := fun _ _ _ =>
   ⟨.typeFn, fun _ _ => rfl⟩
-theorem vk_ret {es es'} (h : Forall2 VkE es es') : VkL (.ret es) (.ret es') := fun D hn =>
-  ⟨.ret (vkEs h D (NoRefL.ret.mp hn)).1, NoRefL.ret.mpr (vkEs h D (NoRefL.ret.mp hn)).2⟩
+theorem vk_ret {es es'} (h : Forall2 VkE es es') : VkL (.ret es) (.ret es') := fun D hd hn =>
+  ⟨.ret (vkEs h D hd (NoRefL.ret.mp hn)).1, NoRefL.ret.mpr (vkEs h D hd (NoRefL.ret.mp hn)).2⟩
 theorem vk_block {ss ss' l l'} (h1 : Forall2 VkS ss ss') (h2 : OptRel VkL l l') : VkBo (.mk ss l) (.mk ss' l') :=
-  fun D hn => by
+  fun D hd hn => by
   cases l <;> cases l' <;> simp only [OptRel] at h2
   · have hh := NoRefB.none.mp hn
-    exact ⟨.blockNone (vkSs h1 D hh).1, NoRefB.none.mpr (vkSs h1 D hh).2⟩
+    exact ⟨.blockNone (vkSs h1 D hd hh).1, NoRefB.none.mpr (vkSs h1 D hd hh).2⟩
   · have hh := NoRefB.some.mp hn
-    exact ⟨.blockSome (vkSs h1 D hh.1).1 (h2 D hh.2).1, NoRefB.some.mpr ⟨(vkSs h1 D hh.1).2, (h2 D hh.2).2⟩⟩
+    exact ⟨.blockSome (vkSs h1 D hd hh.1).1 (h2 D hd hh.2).1, NoRefB.some.mpr ⟨(vkSs h1 D hd hh.1).2, (h2 D hd hh.2).2⟩⟩
 theorem vk_fnBody {ps ps' v vt vt' r r' g g' a a' b b'} (hnm : ps.map TName.name = ps'.map TName.name)
-    (h : VkB b b') : VkF (.mk ps v vt r g a b) (.mk ps' v vt' r' g' a' b') := fun D m hn hs => by
+    (h : VkB b b') : VkF (.mk ps v vt r g a b) (.mk ps' v vt' r' g' a' b') := fun D hd m hn hs => by
   have hn' := NoRefF.mk.mp hn
-  obtain ⟨⟨_, hb⟩, hnb⟩ := h D hn'.2
+  obtain ⟨⟨_, hb⟩, hnb⟩ := h D hd hn'.2
   have hw' := Heap.NoWat.congr hnm hn'.1
   refine ⟨?_, NoRefF.mk.mpr ⟨hw', hnb⟩⟩
   cases m with
@@ -199,7 +199,7 @@ def vFam : CongFam where
   boToB := fun h => Chain.map (L' := VkB) id (fun _ _ h => h.toB) h
   repOfOpen := fun hb hc =>
     Chain.map2 (L' := VkRep) Prod.mk VkBo.refl VkE.refl
-      (fun _ _ _ _ h1 h2 D hnb hnc => ⟨.rep (h1 D hnb).1 (h2 D hnc).1, (h1 D hnb).2, (h2 D hnc).2⟩) hb hc
+      (fun _ _ _ _ h1 h2 D hd hnb hnc => ⟨.rep (h1 D hd hnb).1 (h2 D hd hnc).1, (h1 D hd hnb).2, (h2 D hd hnc).2⟩) hb hc
   paren := fun h => Chain.map (L' := VkE) Expr.paren (fun _ _ => vk_paren) h
   un := fun {op _ _} h => Chain.map (L' := VkE) (Expr.un op) (fun _ _ => vk_un) h
   bin := fun {op _ _ _ _} h1 h2 =>
